@@ -321,6 +321,9 @@ class Gen:
         cv = self.names_of(CPLX)
         if cv and self.chance(60):
             return V(self.choice(cv))
+        if self.chance(25):
+            # a literal of complex type whose imaginary part happens to be zero (never 0 or 1: flatten drops those)
+            return C(["complex", self.choice([0.5, 2, -1.5]), 0])
         return C(["complex", self.choice([0, 1, 0.5]), self.choice([1, -1, 2, 0.5])])
 
     def cplx_expr(self, depth):
